@@ -41,37 +41,61 @@ Module Prod.
   (* the application's Close(): AsyncClose; drain successes in a goroutine; for range p.errors; return *)
   Inductive apc := ApIdle | ApDrain (n : nat) | ApRet (n : nat) | ApReturned.
 
-  (* primitive projections: reduction of [field (setter s ...)] stays cheap on this wide record *)
-  Local Set Primitive Projections.
-  Record st := {
-    inflight : nat;                       (* p.inFlight *)
-    sp : spc;
-    in_closed : bool; ret_closed : bool; err_closed : bool; succ_closed : bool;
-    seen_err : bool; seen_succ : bool;
-    sent : nat;                           (* messages the application has written to Input() *)
-    dp : dpc; d_hold : nat; shutting : bool;
-    rh : rhpc; rh_buf : nat;
-    tp : tpc; tpq : nat; tpq_closed : bool; t_hold : nat;
-    pp : ppc; ppq : nat; ppq_closed : bool; p_hold : nat; ppbuf : nat; pp_ref : bool;
-    p_mark : nat;                         (* a syn / fin marker created (counted) and not yet handed to the worker *)
-    (* current broker worker *)
-    bp : bpc; b_refs : nat; b_in_closed : bool; b_hold : nat; b_buf : nat; b_resp : nat; b_after : bpc;
-    br : brpc; br_set : nat; out_closed : bool; resp_closed : bool; stop_closed : bool;
-    old : nat;                            (* tokens held by retired workers *)
-    ap : apc;
-    budget : nat; fuel : nat;
-    panic : bool }.
-  Local Unset Primitive Projections.
+  (* the state is a record of small records (one per goroutine / concern): projections of updated states
+     reduce cheaply in the proofs; the flat field names below are accessor functions *)
+  Record shut := { x_inflight : nat; x_sp : spc; x_in_closed : bool; x_ret_closed : bool; x_err_closed : bool; x_succ_closed : bool }.
+  Record appl := { x_seen_err : bool; x_seen_succ : bool; x_sent : nat; x_ap : apc }.
+  Record disp := { x_dp : dpc; x_d_hold : nat; x_shutting : bool; x_rh : rhpc; x_rh_buf : nat }.
+  Record topi := { x_tp : tpc; x_tpq : nat; x_tpq_closed : bool; x_t_hold : nat }.
+  Record part := { x_pp : ppc; x_ppq : nat; x_ppq_closed : bool; x_p_hold : nat; x_ppbuf : nat; x_pp_ref : bool; x_p_mark : nat }.
+  Record brok := { x_bp : bpc; x_b_refs : nat; x_b_in_closed : bool; x_b_hold : nat; x_b_buf : nat; x_b_resp : nat; x_b_after : bpc }.
+  Record brid := { x_br : brpc; x_br_set : nat; x_out_closed : bool; x_resp_closed : bool; x_stop_closed : bool }.
+  Record st := { sh : shut; apl : appl; dsp : disp; tpr : topi; prt : part; brk : brok; brg : brid;
+    old : nat;      (* tokens held by retired workers *)
+    budget : nat; fuel : nat; panic : bool }.
+
+  Definition inflight (s : st) : nat := x_inflight (sh s).
+  Definition sp (s : st) : spc := x_sp (sh s).
+  Definition in_closed (s : st) : bool := x_in_closed (sh s).
+  Definition ret_closed (s : st) : bool := x_ret_closed (sh s).
+  Definition err_closed (s : st) : bool := x_err_closed (sh s).
+  Definition succ_closed (s : st) : bool := x_succ_closed (sh s).
+  Definition seen_err (s : st) : bool := x_seen_err (apl s).
+  Definition seen_succ (s : st) : bool := x_seen_succ (apl s).
+  Definition sent (s : st) : nat := x_sent (apl s).
+  Definition ap (s : st) : apc := x_ap (apl s).
+  Definition dp (s : st) : dpc := x_dp (dsp s).
+  Definition d_hold (s : st) : nat := x_d_hold (dsp s).
+  Definition shutting (s : st) : bool := x_shutting (dsp s).
+  Definition rh (s : st) : rhpc := x_rh (dsp s).
+  Definition rh_buf (s : st) : nat := x_rh_buf (dsp s).
+  Definition tp (s : st) : tpc := x_tp (tpr s).
+  Definition tpq (s : st) : nat := x_tpq (tpr s).
+  Definition tpq_closed (s : st) : bool := x_tpq_closed (tpr s).
+  Definition t_hold (s : st) : nat := x_t_hold (tpr s).
+  Definition pp (s : st) : ppc := x_pp (prt s).
+  Definition ppq (s : st) : nat := x_ppq (prt s).
+  Definition ppq_closed (s : st) : bool := x_ppq_closed (prt s).
+  Definition p_hold (s : st) : nat := x_p_hold (prt s).
+  Definition ppbuf (s : st) : nat := x_ppbuf (prt s).
+  Definition pp_ref (s : st) : bool := x_pp_ref (prt s).
+  Definition p_mark (s : st) : nat := x_p_mark (prt s).
+  Definition bp (s : st) : bpc := x_bp (brk s).
+  Definition b_refs (s : st) : nat := x_b_refs (brk s).
+  Definition b_in_closed (s : st) : bool := x_b_in_closed (brk s).
+  Definition b_hold (s : st) : nat := x_b_hold (brk s).
+  Definition b_buf (s : st) : nat := x_b_buf (brk s).
+  Definition b_resp (s : st) : nat := x_b_resp (brk s).
+  Definition b_after (s : st) : bpc := x_b_after (brk s).
+  Definition br (s : st) : brpc := x_br (brg s).
+  Definition br_set (s : st) : nat := x_br_set (brg s).
+  Definition out_closed (s : st) : bool := x_out_closed (brg s).
+  Definition resp_closed (s : st) : bool := x_resp_closed (brg s).
+  Definition stop_closed (s : st) : bool := x_stop_closed (brg s).
 
   Definition init (c : cfg) : st :=
-    {| inflight := 0; sp := SIdle; in_closed := false; ret_closed := false; err_closed := false; succ_closed := false;
-       seen_err := false; seen_succ := false; sent := 0;
-       dp := DRecv; d_hold := 0; shutting := false; rh := RhLoop; rh_buf := 0;
-       tp := TNone; tpq := 0; tpq_closed := false; t_hold := 0;
-       pp := PNone; ppq := 0; ppq_closed := false; p_hold := 0; ppbuf := 0; pp_ref := false; p_mark := 0;
-       bp := BNone; b_refs := 0; b_in_closed := false; b_hold := 0; b_buf := 0; b_resp := 0; b_after := BSelect;
-       br := BrNone; br_set := 0; out_closed := false; resp_closed := false; stop_closed := false;
-       old := 0; ap := ApIdle; budget := budget0 c; fuel := fuel0 c; panic := false |}.
+    {| sh := {| x_inflight := 0; x_sp := SIdle; x_in_closed := false; x_ret_closed := false; x_err_closed := false; x_succ_closed := false |}; apl := {| x_seen_err := false; x_seen_succ := false; x_sent := 0; x_ap := ApIdle |}; dsp := {| x_dp := DRecv; x_d_hold := 0; x_shutting := false; x_rh := RhLoop; x_rh_buf := 0 |}; tpr := {| x_tp := TNone; x_tpq := 0; x_tpq_closed := false; x_t_hold := 0 |}; prt := {| x_pp := PNone; x_ppq := 0; x_ppq_closed := false; x_p_hold := 0; x_ppbuf := 0; x_pp_ref := false; x_p_mark := 0 |}; brk := {| x_bp := BNone; x_b_refs := 0; x_b_in_closed := false; x_b_hold := 0; x_b_buf := 0; x_b_resp := 0; x_b_after := BSelect |}; brg := {| x_br := BrNone; x_br_set := 0; x_out_closed := false; x_resp_closed := false; x_stop_closed := false |};
+       old := 0; budget := budget0 c; fuel := fuel0 c; panic := false |}.
 
   (* how a token held by a goroutine is resolved *)
   (* FErr toclose: the error is handed to the application's draining Close() (true) or to the application
@@ -117,99 +141,39 @@ Module Prod.
   (* retired workers *)
   | AOld (f : fate).
 
-  (* ---- helpers ---- *)
+  (* ---- helpers: setters per goroutine ---- *)
   Definition upd_panic (s : st) (pn : bool) : st :=
-    {| inflight := inflight s; sp := sp s; in_closed := in_closed s; ret_closed := ret_closed s; err_closed := err_closed s; succ_closed := succ_closed s;
-       seen_err := seen_err s; seen_succ := seen_succ s; sent := sent s;
-       dp := dp s; d_hold := d_hold s; shutting := shutting s; rh := rh s; rh_buf := rh_buf s;
-       tp := tp s; tpq := tpq s; tpq_closed := tpq_closed s; t_hold := t_hold s;
-       pp := pp s; ppq := ppq s; ppq_closed := ppq_closed s; p_hold := p_hold s; ppbuf := ppbuf s; pp_ref := pp_ref s; p_mark := p_mark s;
-       bp := bp s; b_refs := b_refs s; b_in_closed := b_in_closed s; b_hold := b_hold s; b_buf := b_buf s; b_resp := b_resp s; b_after := b_after s;
-       br := br s; br_set := br_set s; out_closed := out_closed s; resp_closed := resp_closed s; stop_closed := stop_closed s;
-       old := old s; ap := ap s; budget := budget s; fuel := fuel s; panic := panic s || pn |}.
+    {| sh := sh s; apl := apl s; dsp := dsp s; tpr := tpr s; prt := prt s; brk := brk s; brg := brg s;
+       old := old s; budget := budget s; fuel := fuel s; panic := panic s || pn |}.
   (* shutdown-side fields *)
   Definition set_s (s : st) n p ic rc ec sc : st :=
-    {| inflight := n; sp := p; in_closed := ic; ret_closed := rc; err_closed := ec; succ_closed := sc;
-       seen_err := seen_err s; seen_succ := seen_succ s; sent := sent s;
-       dp := dp s; d_hold := d_hold s; shutting := shutting s; rh := rh s; rh_buf := rh_buf s;
-       tp := tp s; tpq := tpq s; tpq_closed := tpq_closed s; t_hold := t_hold s;
-       pp := pp s; ppq := ppq s; ppq_closed := ppq_closed s; p_hold := p_hold s; ppbuf := ppbuf s; pp_ref := pp_ref s; p_mark := p_mark s;
-       bp := bp s; b_refs := b_refs s; b_in_closed := b_in_closed s; b_hold := b_hold s; b_buf := b_buf s; b_resp := b_resp s; b_after := b_after s;
-       br := br s; br_set := br_set s; out_closed := out_closed s; resp_closed := resp_closed s; stop_closed := stop_closed s;
-       old := old s; ap := ap s; budget := budget s; fuel := fuel s; panic := panic s |}.
+    {| sh := {| x_inflight := n; x_sp := p; x_in_closed := ic; x_ret_closed := rc; x_err_closed := ec; x_succ_closed := sc |}; apl := apl s; dsp := dsp s; tpr := tpr s; prt := prt s; brk := brk s; brg := brg s;
+       old := old s; budget := budget s; fuel := fuel s; panic := panic s |}.
   Definition set_infl (s : st) n := set_s s n (sp s) (in_closed s) (ret_closed s) (err_closed s) (succ_closed s).
   Definition set_app (s : st) se ss sn a : st :=
-    {| inflight := inflight s; sp := sp s; in_closed := in_closed s; ret_closed := ret_closed s; err_closed := err_closed s; succ_closed := succ_closed s;
-       seen_err := se; seen_succ := ss; sent := sn;
-       dp := dp s; d_hold := d_hold s; shutting := shutting s; rh := rh s; rh_buf := rh_buf s;
-       tp := tp s; tpq := tpq s; tpq_closed := tpq_closed s; t_hold := t_hold s;
-       pp := pp s; ppq := ppq s; ppq_closed := ppq_closed s; p_hold := p_hold s; ppbuf := ppbuf s; pp_ref := pp_ref s; p_mark := p_mark s;
-       bp := bp s; b_refs := b_refs s; b_in_closed := b_in_closed s; b_hold := b_hold s; b_buf := b_buf s; b_resp := b_resp s; b_after := b_after s;
-       br := br s; br_set := br_set s; out_closed := out_closed s; resp_closed := resp_closed s; stop_closed := stop_closed s;
-       old := old s; ap := a; budget := budget s; fuel := fuel s; panic := panic s |}.
-  Definition set_d (s : st) p h sh r rb : st :=
-    {| inflight := inflight s; sp := sp s; in_closed := in_closed s; ret_closed := ret_closed s; err_closed := err_closed s; succ_closed := succ_closed s;
-       seen_err := seen_err s; seen_succ := seen_succ s; sent := sent s;
-       dp := p; d_hold := h; shutting := sh; rh := r; rh_buf := rb;
-       tp := tp s; tpq := tpq s; tpq_closed := tpq_closed s; t_hold := t_hold s;
-       pp := pp s; ppq := ppq s; ppq_closed := ppq_closed s; p_hold := p_hold s; ppbuf := ppbuf s; pp_ref := pp_ref s; p_mark := p_mark s;
-       bp := bp s; b_refs := b_refs s; b_in_closed := b_in_closed s; b_hold := b_hold s; b_buf := b_buf s; b_resp := b_resp s; b_after := b_after s;
-       br := br s; br_set := br_set s; out_closed := out_closed s; resp_closed := resp_closed s; stop_closed := stop_closed s;
-       old := old s; ap := ap s; budget := budget s; fuel := fuel s; panic := panic s |}.
+    {| sh := sh s; apl := {| x_seen_err := se; x_seen_succ := ss; x_sent := sn; x_ap := a |}; dsp := dsp s; tpr := tpr s; prt := prt s; brk := brk s; brg := brg s;
+       old := old s; budget := budget s; fuel := fuel s; panic := panic s |}.
+  Definition set_d (s : st) p h sh' r rb : st :=
+    {| sh := sh s; apl := apl s; dsp := {| x_dp := p; x_d_hold := h; x_shutting := sh'; x_rh := r; x_rh_buf := rb |}; tpr := tpr s; prt := prt s; brk := brk s; brg := brg s;
+       old := old s; budget := budget s; fuel := fuel s; panic := panic s |}.
   Definition set_t (s : st) p q qc h : st :=
-    {| inflight := inflight s; sp := sp s; in_closed := in_closed s; ret_closed := ret_closed s; err_closed := err_closed s; succ_closed := succ_closed s;
-       seen_err := seen_err s; seen_succ := seen_succ s; sent := sent s;
-       dp := dp s; d_hold := d_hold s; shutting := shutting s; rh := rh s; rh_buf := rh_buf s;
-       tp := p; tpq := q; tpq_closed := qc; t_hold := h;
-       pp := pp s; ppq := ppq s; ppq_closed := ppq_closed s; p_hold := p_hold s; ppbuf := ppbuf s; pp_ref := pp_ref s; p_mark := p_mark s;
-       bp := bp s; b_refs := b_refs s; b_in_closed := b_in_closed s; b_hold := b_hold s; b_buf := b_buf s; b_resp := b_resp s; b_after := b_after s;
-       br := br s; br_set := br_set s; out_closed := out_closed s; resp_closed := resp_closed s; stop_closed := stop_closed s;
-       old := old s; ap := ap s; budget := budget s; fuel := fuel s; panic := panic s |}.
+    {| sh := sh s; apl := apl s; dsp := dsp s; tpr := {| x_tp := p; x_tpq := q; x_tpq_closed := qc; x_t_hold := h |}; prt := prt s; brk := brk s; brg := brg s;
+       old := old s; budget := budget s; fuel := fuel s; panic := panic s |}.
   Definition set_p (s : st) p q qc h b r : st :=
-    {| inflight := inflight s; sp := sp s; in_closed := in_closed s; ret_closed := ret_closed s; err_closed := err_closed s; succ_closed := succ_closed s;
-       seen_err := seen_err s; seen_succ := seen_succ s; sent := sent s;
-       dp := dp s; d_hold := d_hold s; shutting := shutting s; rh := rh s; rh_buf := rh_buf s;
-       tp := tp s; tpq := tpq s; tpq_closed := tpq_closed s; t_hold := t_hold s;
-       pp := p; ppq := q; ppq_closed := qc; p_hold := h; ppbuf := b; pp_ref := r; p_mark := p_mark s;
-       bp := bp s; b_refs := b_refs s; b_in_closed := b_in_closed s; b_hold := b_hold s; b_buf := b_buf s; b_resp := b_resp s; b_after := b_after s;
-       br := br s; br_set := br_set s; out_closed := out_closed s; resp_closed := resp_closed s; stop_closed := stop_closed s;
-       old := old s; ap := ap s; budget := budget s; fuel := fuel s; panic := panic s |}.
+    {| sh := sh s; apl := apl s; dsp := dsp s; tpr := tpr s; prt := {| x_pp := p; x_ppq := q; x_ppq_closed := qc; x_p_hold := h; x_ppbuf := b; x_pp_ref := r; x_p_mark := p_mark s |}; brk := brk s; brg := brg s;
+       old := old s; budget := budget s; fuel := fuel s; panic := panic s |}.
   Definition set_mark (s : st) m : st :=
-    {| inflight := inflight s; sp := sp s; in_closed := in_closed s; ret_closed := ret_closed s; err_closed := err_closed s; succ_closed := succ_closed s;
-       seen_err := seen_err s; seen_succ := seen_succ s; sent := sent s;
-       dp := dp s; d_hold := d_hold s; shutting := shutting s; rh := rh s; rh_buf := rh_buf s;
-       tp := tp s; tpq := tpq s; tpq_closed := tpq_closed s; t_hold := t_hold s;
-       pp := pp s; ppq := ppq s; ppq_closed := ppq_closed s; p_hold := p_hold s; ppbuf := ppbuf s; pp_ref := pp_ref s; p_mark := m;
-       bp := bp s; b_refs := b_refs s; b_in_closed := b_in_closed s; b_hold := b_hold s; b_buf := b_buf s; b_resp := b_resp s; b_after := b_after s;
-       br := br s; br_set := br_set s; out_closed := out_closed s; resp_closed := resp_closed s; stop_closed := stop_closed s;
-       old := old s; ap := ap s; budget := budget s; fuel := fuel s; panic := panic s |}.
+    {| sh := sh s; apl := apl s; dsp := dsp s; tpr := tpr s; prt := {| x_pp := pp s; x_ppq := ppq s; x_ppq_closed := ppq_closed s; x_p_hold := p_hold s; x_ppbuf := ppbuf s; x_pp_ref := pp_ref s; x_p_mark := m |}; brk := brk s; brg := brg s;
+       old := old s; budget := budget s; fuel := fuel s; panic := panic s |}.
   Definition set_b (s : st) p rf ic h bf rs af : st :=
-    {| inflight := inflight s; sp := sp s; in_closed := in_closed s; ret_closed := ret_closed s; err_closed := err_closed s; succ_closed := succ_closed s;
-       seen_err := seen_err s; seen_succ := seen_succ s; sent := sent s;
-       dp := dp s; d_hold := d_hold s; shutting := shutting s; rh := rh s; rh_buf := rh_buf s;
-       tp := tp s; tpq := tpq s; tpq_closed := tpq_closed s; t_hold := t_hold s;
-       pp := pp s; ppq := ppq s; ppq_closed := ppq_closed s; p_hold := p_hold s; ppbuf := ppbuf s; pp_ref := pp_ref s; p_mark := p_mark s;
-       bp := p; b_refs := rf; b_in_closed := ic; b_hold := h; b_buf := bf; b_resp := rs; b_after := af;
-       br := br s; br_set := br_set s; out_closed := out_closed s; resp_closed := resp_closed s; stop_closed := stop_closed s;
-       old := old s; ap := ap s; budget := budget s; fuel := fuel s; panic := panic s |}.
+    {| sh := sh s; apl := apl s; dsp := dsp s; tpr := tpr s; prt := prt s; brk := {| x_bp := p; x_b_refs := rf; x_b_in_closed := ic; x_b_hold := h; x_b_buf := bf; x_b_resp := rs; x_b_after := af |}; brg := brg s;
+       old := old s; budget := budget s; fuel := fuel s; panic := panic s |}.
   Definition set_br (s : st) p n oc rc sc : st :=
-    {| inflight := inflight s; sp := sp s; in_closed := in_closed s; ret_closed := ret_closed s; err_closed := err_closed s; succ_closed := succ_closed s;
-       seen_err := seen_err s; seen_succ := seen_succ s; sent := sent s;
-       dp := dp s; d_hold := d_hold s; shutting := shutting s; rh := rh s; rh_buf := rh_buf s;
-       tp := tp s; tpq := tpq s; tpq_closed := tpq_closed s; t_hold := t_hold s;
-       pp := pp s; ppq := ppq s; ppq_closed := ppq_closed s; p_hold := p_hold s; ppbuf := ppbuf s; pp_ref := pp_ref s; p_mark := p_mark s;
-       bp := bp s; b_refs := b_refs s; b_in_closed := b_in_closed s; b_hold := b_hold s; b_buf := b_buf s; b_resp := b_resp s; b_after := b_after s;
-       br := p; br_set := n; out_closed := oc; resp_closed := rc; stop_closed := sc;
-       old := old s; ap := ap s; budget := budget s; fuel := fuel s; panic := panic s |}.
+    {| sh := sh s; apl := apl s; dsp := dsp s; tpr := tpr s; prt := prt s; brk := brk s; brg := {| x_br := p; x_br_set := n; x_out_closed := oc; x_resp_closed := rc; x_stop_closed := sc |};
+       old := old s; budget := budget s; fuel := fuel s; panic := panic s |}.
   Definition set_misc (s : st) o bg fl : st :=
-    {| inflight := inflight s; sp := sp s; in_closed := in_closed s; ret_closed := ret_closed s; err_closed := err_closed s; succ_closed := succ_closed s;
-       seen_err := seen_err s; seen_succ := seen_succ s; sent := sent s;
-       dp := dp s; d_hold := d_hold s; shutting := shutting s; rh := rh s; rh_buf := rh_buf s;
-       tp := tp s; tpq := tpq s; tpq_closed := tpq_closed s; t_hold := t_hold s;
-       pp := pp s; ppq := ppq s; ppq_closed := ppq_closed s; p_hold := p_hold s; ppbuf := ppbuf s; pp_ref := pp_ref s; p_mark := p_mark s;
-       bp := bp s; b_refs := b_refs s; b_in_closed := b_in_closed s; b_hold := b_hold s; b_buf := b_buf s; b_resp := b_resp s; b_after := b_after s;
-       br := br s; br_set := br_set s; out_closed := out_closed s; resp_closed := resp_closed s; stop_closed := stop_closed s;
-       old := o; ap := ap s; budget := bg; fuel := fl; panic := panic s |}.
+    {| sh := sh s; apl := apl s; dsp := dsp s; tpr := tpr s; prt := prt s; brk := brk s; brg := brg s;
+       old := o; budget := bg; fuel := fl; panic := panic s |}.
 
   (* inFlight.Done(): a negative counter panics *)
   Definition done1 (s : st) : st := upd_panic (set_infl s (pred (inflight s))) (inflight s =? 0).
